@@ -12,6 +12,9 @@ import (
 
 var DefaultCoder = new(Coder)
 
+// maxCode is the largest code that fits into the 8-bit code field of the message header.
+const maxCode = codes.Code(0xff)
+
 type Coder struct{}
 
 func (c *Coder) Size(m message.Message) (int, error) {
@@ -51,6 +54,9 @@ func (c *Coder) Encode(m message.Message, buf []byte) (int, error) {
 	}
 	if !message.ValidateType(m.Type) {
 		return -1, fmt.Errorf("invalid Type(%v)", m.Type)
+	}
+	if m.Code > maxCode {
+		return -1, fmt.Errorf("invalid Code(%v)", m.Code)
 	}
 	size, err := c.Size(m)
 	if err != nil {
